@@ -1,52 +1,10 @@
 (* C16 - entry points evaluated on the replay cases of tools/props/C16.py: a schedule of the protocol model
-   (the interleaving a scenario on the real binaries or on in-process agents realises) and what was observed. *)
+   (the interleaving a scenario on the real binaries or on in-process agents realised) and what was observed. *)
 From Coq Require Import List Bool Arith.
 Import ListNotations.
 From BD.Sock Require Import Model.
 
-(* schedule items: (0, p) = Do p ; (1, p) = Exit p ; (2, p) = p runs to its end (the process has exited: every
-   remaining action is taken, except that a late unlink the trace does not show was cut off by the exit) *)
-Definition finish1 (p : nat) (w : world) : world :=
-  match cur w p with
-  | None => w
-  | Some LateUnlink => match step (Exit p) w with Some w' => w' | None => w end
-  | Some _ => match step (Do p) w with Some w' => w' | None => w end
-  end.
-Fixpoint finish (fuel p : nat) (w : world) : world :=
-  match fuel with O => w | S f => finish f p (finish1 p w) end.
-
-Fixpoint run_items (l : list (nat * nat)) (w : world) : option world :=
-  match l with
-  | [] => Some w
-  | (k, p) :: r =>
-      match k with
-      | 0 => match step (Do p) w with Some w' => run_items r w' | None => None end
-      | 1 => match step (Exit p) w with Some w' => run_items r w' | None => None end
-      | _ => run_items r (finish 16 p w)
-      end
-  end.
-
-(* the same items as labels of the transition system (Finish unfolded along the run) - used for the guard *)
-Fixpoint labels_of (l : list (nat * nat)) (w : world) : list label :=
-  match l with
-  | [] => []
-  | (k, p) :: r =>
-      match k with
-      | 0 => Do p :: match step (Do p) w with Some w' => labels_of r w' | None => [] end
-      | 1 => Exit p :: match step (Exit p) w with Some w' => labels_of r w' | None => [] end
-      | _ => (fix go (fuel : nat) (w0 : world) : list label :=
-                match fuel with
-                | O => labels_of r w0
-                | S f => match cur w0 p with
-                         | None => labels_of r w0
-                         | Some LateUnlink => Exit p :: go f (finish1 p w0)
-                         | Some _ => Do p :: go f (finish1 p w0)
-                         end
-                end) 16 w
-      end
-  end.
 Definition sock_of (c : nat) : sockst := match c with 0 => Absent | 1 => Stale | S (S p) => Bound p end.
-Definition sock_code (s : sockst) : nat := match s with Absent => 0 | Stale => 1 | Bound p => S (S p) end.
 
 (* per process: (0 still running | 1 finished | 2 refused | 3 bind failed, executed its steps, run recorded) *)
 Definition obs : Type := list (nat * bool * bool).
@@ -61,7 +19,24 @@ Fixpoint obs_eqb (a b : obs) : bool :=
   | _, _ => false
   end.
 
-(* 0 agrees; 1 the schedule is not executable in the model; 2 outcomes differ; 4 endpoint answer differs *)
+(* schedule items: (0, p) = Do p (must be enabled: a Lock taken while another process holds the lock is NOT);
+   (2, p) = p runs to its end (the process has exited: every remaining enabled action is taken) *)
+Definition finish1 (p : nat) (w : world) : world :=
+  match step (Do p) w with Some w' => w' | None => w end.
+Fixpoint finish (fuel p : nat) (w : world) : world :=
+  match fuel with O => w | S f => finish f p (finish1 p w) end.
+
+Fixpoint run_items (l : list (nat * nat)) (w : world) : option world :=
+  match l with
+  | [] => Some w
+  | (k, p) :: r =>
+      match k with
+      | 0 => match step (Do p) w with Some w' => run_items r w' | None => None end
+      | _ => run_items r (finish 17 p w)
+      end
+  end.
+
+(* 0 agrees; 1 the schedule is not an execution of the model; 2 outcomes differ; 4 endpoint answer differs *)
 Definition disagreement (c : rcase) : nat :=
   let '(s0, n, sched, o, ans) := c in
   match run_items sched (init (sock_of s0)) with
@@ -71,30 +46,9 @@ Definition disagreement (c : rcase) : nat :=
       + (if (ans =? 2) || Bool.eqb (answering w) (ans =? 1) then 0 else 4)
   end.
 
-(* does the schedule satisfy the premise of C16_mutual_exclusion_partial? *)
-Definition guarded (c : rcase) : bool :=
-  let '(s0, n, sched, _, _) := c in
-  match grun n (labels_of sched (init (sock_of s0))) (init (sock_of s0)) with Some _ => true | None => false end.
-
-(* model outcomes, for the report *)
-Definition predicted (c : rcase) : option (obs * bool) :=
-  let '(s0, n, sched, _, _) := c in
-  match run_items sched (init (sock_of s0)) with
-  | Some w => Some (outcomes n w, answering w)
-  | None => None
-  end.
-
 Fixpoint mism (i : nat) (l : list rcase) : list (nat * nat) :=
   match l with
   | [] => []
   | c :: r => let d := disagreement c in (if d =? 0 then [] else [(i, d)]) ++ mism (S i) r
   end.
 Definition mismatches (l : list rcase) : list (nat * nat) := mism 0 l.
-
-Fixpoint unguarded_from (i : nat) (l : list rcase) : list nat :=
-  match l with
-  | [] => []
-  | c :: r => (if guarded c then [] else [i]) ++ unguarded_from (S i) r
-  end.
-(* indices of the cases whose schedule is outside the premise of the _partial theorem (racing) *)
-Definition unguarded (l : list rcase) : list nat := unguarded_from 0 l.
